@@ -163,9 +163,11 @@ pub fn c15(ctx: &Ctx) -> Frag {
     });
     std::fs::remove_dir_all(&dir).ok();
     let mut s = st.into_inner();
-    if res.is_err() {
+    if let Err(e) = &res {
         if let Some(v) = s.failed.take() {
             s.frag.violation(v);
+        } else {
+            s.frag.notes.push(format!("proptest aborted without a recorded violation: {}", e.to_string().chars().take(500).collect::<String>()));
         }
     }
     s.frag.extra.insert("concurrent_calls".into(), json!(s.calls));
